@@ -241,8 +241,12 @@ class Maker:
             if not bool(cond):
                 raise symx.PathAbort()
 
-    def require(self, name, cond, key=None):
+    def require(self, name, cond, key=None, use=None):
+        """use: names (prefixes) of the lemmas this obligation needs -- the proof is first attempted with the input
+        assumptions and only those lemmas as hypotheses (a subset of the hypotheses, hence sound)"""
         self.checked += 1
+        if self.sym and use is not None:
+            self.__dict__.setdefault('use', {})[len(self.obligations)] = tuple(use)
         if self.sym:
             if isinstance(cond, SymBool):
                 term = cond.t
@@ -262,13 +266,14 @@ class Maker:
     def note(self, s):
         self.notes.append(s)
 
-    def lemma(self, name, cond):
+    def lemma(self, name, cond, use=None):
         """an obligation that, once posted, is also available as a hypothesis to the later
         obligations of this path (proof guidance: it is itself proved under the hypotheses
         that precede it, so nothing is assumed without proof)"""
-        self.require('lemma: ' + name, cond)
+        self.require('lemma: ' + name, cond, use=use)
         if self.sym and isinstance(cond, SymBool):
             symx.ctx().assume(cond.t)
+            self.__dict__.setdefault('lemma_terms', []).append((name, cond.t))
 
 
 # --------------------------------------------------------------------------
@@ -541,9 +546,15 @@ def run_case(prop, name, h, timeout_ms=30000, max_paths=400, allow_exceptions=()
             continue
         # vacuity witness: the path condition with all definitions is satisfiable
         r, _ = solve.check_sat(p.pc + base + [solve.MARGIN == 0], min(timeout_ms, 10000))
+        if r == 'unknown' and getattr(m, 'lemma_terms', None):
+            # lemmas are proved consequences of what precedes them (each is an obligation of this path):
+            # a model of the path condition without them is a model with them
+            drop = {t.get_id() for (_, t) in m.lemma_terms}
+            sub = [f for f in p.pc if f.get_id() not in drop]
+            r, _ = solve.check_sat(sub + solve.needed_defs(base, sub) + [solve.MARGIN == 0], min(timeout_ms, 10000))
         if r == 'sat':
             res['vacuity'] += 1
-        for (obname, plen, term, key) in m.obligations:
+        for ob_no, (obname, plen, term, key) in enumerate(m.obligations):
             if len(res['violations']) >= 1:
                 break
             ob_index[0] += 1
@@ -552,7 +563,18 @@ def run_case(prop, name, h, timeout_ms=30000, max_paths=400, allow_exceptions=()
             res['obligations'] += 1
             hyps = p.pc[:plen] + solve.needed_defs(base, p.pc[:plen] + [term])
             before = solve.STATS.trivial
-            r, mdl = solve.prove(hyps + [solve.MARGIN == 0], term, timeout_ms, link=base + atom_links(p.ctx))
+            r = None
+            use = getattr(m, 'use', {}).get(ob_no)
+            if use is not None:
+                lem = getattr(m, 'lemma_terms', [])
+                drop = {t.get_id() for (ln, t) in lem if not any(ln.startswith(u_) for u_ in use)}
+                sub = [f for f in p.pc[:plen] if f.get_id() not in drop]
+                sub = sub + solve.needed_defs(base, sub + [term])
+                r, mdl = solve.prove(sub + [solve.MARGIN == 0], term, min(timeout_ms, 15000), link=base + atom_links(p.ctx))
+                if r != 'valid':
+                    r = None
+            if r is None:
+                r, mdl = solve.prove(hyps + [solve.MARGIN == 0], term, timeout_ms, link=base + atom_links(p.ctx))
             if r == 'cex' and ints:
                 # the relaxed (integers as reals) problem has a model: decide with integrality
                 # (linearised: non-linear subterms abstracted; mixed Int/non-linear queries make z3
